@@ -1,24 +1,16 @@
 """VDI guest-content oracle, from VirtualBox VDICore.h (header v1.1, block map markers)."""
 from __future__ import annotations
 
-import z3
-
-from symx import files
-from symx.core import S, bvval as V
+from oracles.mem import ite
 
 SIGNATURE = 0xBEDA107F
 # header v1.1 field offsets (pre-header is 64 bytes of text + signature + version = 72 bytes)
 OFF_BLOCKS, OFF_DATA, OFF_DISK_SIZE, OFF_BLOCK_SIZE, OFF_BLOCK_EXTRA, OFF_NBLOCKS = 340, 344, 368, 376, 380, 384
 
 
-def guest_byte(g, blocks_off, data_off, block_size, has_parent, fname="img", parent="parent"):
-    W32 = files.word_uf(fname, 4, "le")[0]
-    B = files.byte_uf(fname)[0]
-    P = files.opaque_uf(parent)[0]
-    blk = z3.UDiv(g, V(block_size))
-    e = W32(blocks_off + V(4) * blk)
-    es = z3.SignExt(S.W - 32, e)
-    zero = z3.BitVecVal(0, 8)
-    data = B(data_off + es * V(block_size) + z3.URem(g, V(block_size)))
-    return z3.If(e == z3.BitVecVal(0xFFFFFFFF, 32), P(g) if has_parent else zero,
-                 z3.If(e == z3.BitVecVal(0xFFFFFFFE, 32), zero, data))
+def guest_byte(g, blocks_off, data_off, block_size, mem, parent=None):
+    blk = g // block_size
+    e = mem.word(blocks_off + 4 * blk, 4, "le", signed=True)
+    data = mem.byte(data_off + e * block_size + g % block_size)
+    from_parent = parent.byte(g) if parent is not None else 0
+    return ite(e == -1, from_parent, ite(e == -2, 0, data))
